@@ -3,13 +3,14 @@ import CohdlVerif.Lemmas.C01Sim
 /-! C01 - fragment 1 (skip / act / await / await false / if): plain (transition free) statements -/
 namespace CohdlVerif.C01
 
-/-- fragment 1 of the grammar: no loops, no calls -/
+/-- fragment 1 of the grammar: no break / continue / return, no calls -/
 def frag1 : Stmt → Bool
   | .skip => true
   | .act _ k => frag1 k
   | .await _ k => frag1 k
   | .awaitF => true
   | .ite _ t e k => frag1 t && frag1 e && frag1 k
+  | .while_ _ b k => frag1 b && frag1 k
   | _ => false
 
 theorem frag1_wf : ∀ (t : Stmt), frag1 t = true → ∀ l, wf t l false = true := by
@@ -23,7 +24,10 @@ theorem frag1_wf : ∀ (t : Stmt), frag1 t = true → ∀ l, wf t l false = true
     intro h l
     simp only [frag1, Bool.and_eq_true] at h
     simp [wf, iht h.1.1 l, ihe h.1.2 l, ihk h.2 l]
-  | while_ c b k _ _ => intro h; simp [frag1] at h
+  | while_ c b k ihb ihk =>
+    intro h l
+    simp only [frag1, Bool.and_eq_true] at h
+    simp [wf, ihb h.1 true, ihk h.2 l]
   | brk => intro h; simp [frag1] at h
   | cont => intro h; simp [frag1] at h
   | ret => intro h; simp [frag1] at h
@@ -40,7 +44,10 @@ theorem frag1_retAlways : ∀ (t : Stmt), frag1 t = true → retAlways t = false
     intro h
     simp only [frag1, Bool.and_eq_true] at h
     simp [retAlways, iht h.1.1, ihk h.2]
-  | while_ c b k _ _ => intro h; simp [frag1] at h
+  | while_ c b k _ ihk =>
+    intro h
+    simp only [frag1, Bool.and_eq_true] at h
+    simpa [retAlways] using ihk h.2
   | brk => intro h; simp [frag1] at h
   | cont => intro h; simp [frag1] at h
   | ret => intro h; simp [frag1] at h
@@ -61,6 +68,131 @@ theorem frag1_step' (t : Stmt) (h : frag1 t = true) (O : List Nat) (s : CSt) (hl
 theorem frag1_step (t : Stmt) (h : frag1 t = true) (O : List Nat) (s : CSt) (hi : Inv s O) :
     Step s O (compile t O s).2 (compile t O s).1 := frag1_step' t h O s hi.hlt hi.start
 
+
+/-- the break / continue / return lists are the same -/
+def SameLists (a b : CSt) : Prop := b.brk = a.brk ∧ b.cont = a.cont ∧ b.ret = a.ret
+
+theorem SameLists.refl (a : CSt) : SameLists a a := ⟨rfl, rfl, rfl⟩
+theorem SameLists.trans {a b c : CSt} (h1 : SameLists a b) (h2 : SameLists b c) : SameLists a c :=
+  ⟨h2.1.trans h1.1, h2.2.1.trans h1.2.1, h2.2.2.trans h1.2.2⟩
+
+theorem HeapExt.sameLists {s s' : CSt} {O : List Nat} (h : HeapExt s s' O) : SameLists s s' :=
+  ⟨h.brk_eq, h.cont_eq, h.ret_eq⟩
+
+theorem itePre_sameLists (c b : Nat) (s : CSt) : SameLists s (itePre c b s) := ⟨rfl, rfl, rfl⟩
+
+theorem enterState_sameLists (O : List Nat) (s : CSt) : SameLists s (enterState O s).2.2 :=
+  ⟨(enterState_lists O s).2.1, (enterState_lists O s).2.2, (enterState_lists O s).1⟩
+
+theorem iteLoop_sameLists (c : Nat) (ft fe : List Nat → CSt → List Nat × CSt)
+    (hft : ∀ O s, SameLists s (ft O s).2) (hfe : ∀ O s, SameLists s (fe O s).2) :
+    ∀ (bs : List Nat) (s : CSt) (acc : List Nat), SameLists s (iteLoop c ft fe bs s acc).2 := by
+  intro bs
+  induction bs with
+  | nil => intro s acc; exact SameLists.refl s
+  | cons b bs ih =>
+    intro s acc
+    rw [iteLoop_cons]
+    exact (((itePre_sameLists c b s).trans (hft _ _)).trans (hfe _ _)).trans (ih _ _)
+
+theorem CSt.addfrontAll_sameLists (t : Nat) : ∀ (bs : List Nat) (s : CSt), SameLists s (s.addfrontAll bs t) := by
+  intro bs
+  induction bs with
+  | nil => intro s; exact SameLists.refl s
+  | cons b bs ih =>
+    intro s
+    simp only [CSt.addfrontAll, List.foldl_cons] at ih ⊢
+    exact (show SameLists s (s.addfront b t) from ⟨rfl, rfl, rfl⟩).trans (ih _)
+
+theorem wS1_sameLists (O : List Nat) (s : CSt) : SameLists s (wS1 O s) := by
+  have h0 : SameLists s (wS0 O s) := by
+    unfold wS0
+    split
+    · exact (enterState_sameLists O s).trans ⟨rfl, rfl, rfl⟩
+    · exact enterState_sameLists O s
+  exact h0.trans ⟨rfl, rfl, rfl⟩
+
+/-- a loop whose body does not touch the lists: no break / continue block, the lists of the enclosing loop are
+    restored -/
+theorem while_frag_lists (cc : Option Nat) (b : Stmt) (hb : ∀ O s, SameLists s (compile b O s).2) (O : List Nat)
+    (s : CSt) : (wS3 b O s).cont = [] ∧ (wS3 b O s).brk = [] ∧ wCl cc b O s = ([], wS4 b O s) ∧
+      SameLists s (wCl cc b O s).2 := by
+  have h1 := hb [wBody O s] { wS1 O s with cont := [], brk := [] }
+  have h3 := h1.trans (CSt.addfrontAll_sameLists (wIdx O s) (wR b O s).1 (wR b O s).2)
+  have hc : (wS3 b O s).cont = [] := h3.2.1
+  have hb' : (wS3 b O s).brk = [] := h3.1
+  have hcl : wCl cc b O s = ([], wS4 b O s) := by simp [wCl, hc, contLoop]
+  refine ⟨hc, hb', hcl, ?_⟩
+  rw [hcl]
+  have h0 := wS1_sameLists O s
+  exact ⟨h0.1, h0.2.1, (show (wS4 b O s).ret = (wS3 b O s).ret from rfl).trans (h3.2.2.trans h0.2.2)⟩
+
+/-- fragment 1 never touches the break / continue / return lists -/
+theorem frag1_sameLists : ∀ (t : Stmt), frag1 t = true → ∀ O s, SameLists s (compile t O s).2 := by
+  intro t
+  induction t with
+  | skip => intro _ O s; exact SameLists.refl s
+  | act a k ih =>
+    intro h O s
+    exact (HeapExt.appendAll O (.act a) O s (fun _ h => h)).sameLists.trans (ih (by simpa [frag1] using h) O _)
+  | await cc k ih =>
+    intro h O s
+    have hk : frag1 k = true := by simpa [frag1] using h
+    cases cc with
+    | none =>
+      rw [compile_await_none]; split
+      · exact ih hk _ _
+      · exact (enterState_sameLists O s).trans (ih hk _ _)
+    | some c' =>
+      rw [compile_await_some]; split
+      · exact ih hk _ _
+      · exact ((enterState_sameLists O s).trans (itePre_sameLists _ _ _)).trans (ih hk _ _)
+  | awaitF =>
+    intro _ O s
+    simp only [compile]; split
+    · exact SameLists.refl s
+    · exact enterState_sameLists O s
+  | ite c t e k iht ihe ihk =>
+    intro h O s
+    simp only [frag1, Bool.and_eq_true] at h
+    rw [compile_ite]; simp only [frag1_retAlways t h.1.1, Bool.false_and, Bool.false_eq_true, if_false]
+    exact (iteLoop_sameLists c _ _ (iht h.1.1) (ihe h.1.2) O s []).trans (ihk h.2 _ _)
+  | while_ cc b k ihb ihk =>
+    intro h O s
+    simp only [frag1, Bool.and_eq_true] at h
+    obtain ⟨e1, e2, e3, e4⟩ := while_frag_lists cc b (ihb h.1) O s
+    cases cc with
+    | none =>
+      rw [compile_while_none]
+      exact (e4.trans (HeapExt.append _ [wHb O s] (wHb O s) (by simp) _).sameLists).trans (ihk h.2 _ _)
+    | some c' =>
+      rw [compile_while_some]
+      refine ((e4.trans ?_).trans (HeapExt.append _ [wHb O s] (wHb O s) (by simp) _).sameLists).trans (ihk h.2 _ _)
+      exact ⟨rfl, rfl, rfl⟩
+  | brk => intro h; simp [frag1] at h
+  | cont => intro h; simp [frag1] at h
+  | ret => intro h; simp [frag1] at h
+  | call b k _ _ => intro h; simp [frag1] at h
+
+theorem compile_while_frag_none (b k : Stmt) (hb : frag1 b = true) (O : List Nat) (s : CSt) :
+    compile (.while_ none b k) O s = compile k [] ((wS4 b O s).append (wHb O s) (.sub (wBody O s))) := by
+  obtain ⟨_, e2, e3, _⟩ := while_frag_lists none b (frag1_sameLists b hb) O s
+  rw [compile_while_none, wRb, e3, e2]; rfl
+
+theorem compile_while_frag_some (c' : Nat) (b k : Stmt) (hb : frag1 b = true) (O : List Nat) (s : CSt) :
+    compile (.while_ (some c') b k) O s =
+      compile k [(wS4 b O s).next]
+        (((wS4 b O s).newBlock (some (wHb O s))).2.append (wHb O s) (.ite c' (wBody O s) (wS4 b O s).next)) := by
+  obtain ⟨_, e2, e3, _⟩ := while_frag_lists (some c') b (frag1_sameLists b hb) O s
+  rw [compile_while_some, wRb, e3, e2]; rfl
+
+/-- the state after the body of a loop of fragment 1 -/
+theorem wS4_frag_step (cc : Option Nat) (b : Stmt) (hb : frag1 b = true) (O : List Nat) (s : CSt) (hl : Hlt s O)
+    (hJ : s.atStart = true → O = [0]) : Step s O (wS4 b O s) [wHb O s] ∧ (wS4 b O s).atStart = false := by
+  obtain ⟨_, e2, e3, _⟩ := while_frag_lists cc b (frag1_sameLists b hb) O s
+  have := wCl_step cc b false (compile_spec b true false (frag1_wf b hb true)) O s hl hJ
+  rw [wRb, e3, e2] at this
+  exact this
 
 /-- no transition: the open blocks after a branch are the branch block itself (`not any_transition`) -/
 def NoTr (x : Nat) (O' : List Nat) : Prop := O' ≠ [] ∧ ∀ y ∈ O', y = x
